@@ -79,12 +79,23 @@ class Scenario:
         self.model = _M(self.sim, nevents, set(faults), stoppers)
         self.notifs = []
         self.results = []
-        with dd.quiet():
-            self.sim.initialize(self.model, SingleReplication("r", 0.0, 0.0, end))
+        captured, sim = [], self.sim
+        orig = sim.schedule_event_abs
+
+        def _capture(*a, **k):
+            ev_ = orig(*a, **k)
+            if len(a) >= 2 and a[1] is sim:
+                captured.append(ev_)
+            return ev_
+        sim.schedule_event_abs = _capture
+        try:
+            with dd.quiet():
+                self.sim.initialize(self.model, SingleReplication("r", 0.0, 0.0, end))
+        finally:
+            del sim.schedule_event_abs
         # keep only the model's events on the list: drop the warm-up event (it would be one more loop iteration)
-        for tup in list(self.sim.eventlist()._event_list):
-            if tup[3].target is self.sim:
-                self.sim.cancel_event(tup[3])
+        for ev_ in captured:
+            self.sim.cancel_event(ev_)
         lst = _Notif(self.notifs)
         for et in dd.notif_types():
             self.sim.add_listener(et, lst)
